@@ -3,6 +3,7 @@
 package labrt
 
 import (
+	"context"
 	"bufio"
 	"bytes"
 	"encoding/json"
@@ -118,6 +119,7 @@ type Scenario struct {
 	Parse  *ParseCall  `json:"parse,omitempty"`
 	Round  *RoundTrip  `json:"round,omitempty"`
 	Union  *UnionCall  `json:"union,omitempty"`
+	Swagger *struct{}  `json:"swagger,omitempty"` // call GetSwagger(), validate, return the document with references internalised
 }
 
 type Wire struct {
@@ -276,6 +278,35 @@ func run(pkgs map[string]Package, sc *Scenario) (res Result) {
 			return
 		}
 		res.Out = []json.RawMessage{b}
+	case sc.Swagger != nil:
+		fn, ok := p.Funcs["GetSwagger"]
+		if !ok {
+			res.Err = "no GetSwagger in package"
+			return
+		}
+		outs := reflect.ValueOf(fn).Call(nil)
+		if !outs[1].IsNil() {
+			res.Err = "GetSwagger: " + outs[1].Interface().(error).Error()
+			return
+		}
+		mv := outs[0].MethodByName("Validate")
+		if mv.IsValid() {
+			// Validate(ctx, opts...) - examples are not validated (kin-openapi overflows its stack on some)
+			vo := mv.Call([]reflect.Value{reflect.ValueOf(context.Background())})
+			if !vo[0].IsNil() {
+				res.Err = "embedded document does not validate: " + vo[0].Interface().(error).Error()
+				return
+			}
+		}
+		if iv := outs[0].MethodByName("InternalizeRefs"); iv.IsValid() {
+			iv.Call([]reflect.Value{reflect.ValueOf(context.Background()), reflect.Zero(iv.Type().In(1))})
+		}
+		jb := outs[0].MethodByName("MarshalJSON").Call(nil)
+		if !jb[1].IsNil() {
+			res.Err = "marshal: " + jb[1].Interface().(error).Error()
+			return
+		}
+		res.Out = []json.RawMessage{jb[0].Bytes()}
 	case sc.Union != nil:
 		t, ok := p.Types[sc.Union.Type]
 		if !ok {
